@@ -217,3 +217,11 @@ package verifh
 //@   modifies uint8
 //@   ensures[C01] result2 == nil && result0 == v1 && result1 == v2
 //@   canary[C01] result1 == 0
+
+//@ func ListTwoElements
+//@   requires b != nil
+//@   modifies buffer.len at b
+//@   modifies buffer.obj at b
+//@   modifies uint8
+//@   ensures[C01] result3 == nil && result2 == 2 && result0 == v1 && result1 == v2
+//@   canary[C01] result1 == 0
